@@ -518,6 +518,33 @@ func TestPropStoreValue(t *testing.T) {
 				t.Fatalf("Value.UnmarshalJSON(%q) panicked: %v", text, pan)
 			}
 		}
+		// a parsed value is its own: the caller may reuse the buffer the text was parsed from
+		// (a scanner's or a database item's byte slice) without the value changing
+		for _, direct := range []bool{false, true} {
+			buf := []byte(text)
+			var v store.Value
+			var err error
+			if direct {
+				if !json.Valid(buf) {
+					continue
+				}
+				err = v.UnmarshalJSON(buf)
+			} else {
+				err = json.Unmarshal(buf, &v)
+			}
+			if err != nil {
+				continue
+			}
+			before, _ := json.Marshal(v)
+			typ, rid, inner := v.Type, v.RID, string(v.Inner)
+			for i := range buf {
+				buf[i] = '#'
+			}
+			after, _ := json.Marshal(v)
+			if string(before) != string(after) || v.Type != typ || v.RID != rid || string(v.Inner) != inner {
+				t.Fatalf("store.Value parsed from %q (direct UnmarshalJSON call: %v) changed when the caller reused its buffer: %s / inner %q became %s / inner %q", text, direct, before, inner, after, v.Inner)
+			}
+		}
 		class, _, extras := classify(text)
 		nt := json.Valid([]byte(text)) && (strings.TrimSpace(text) != text || strings.ContainsAny(text, " \n\t") || extras || class == cUnspec)
 		ev.Case(nt, evid.Hash("sv", text), "storevalue", "class-"+class)
@@ -535,6 +562,16 @@ func TestPropValueEqual(t *testing.T) {
 		}
 		if rapid.Bool().Draw(t, "variant2") {
 			texts[2] = texts[1]
+		}
+		// strings written by other encoders: the same or different content behind escapes
+		if rapid.IntRange(0, 3).Draw(t, "strings") == 0 {
+			piece := rapid.SampledFrom([]string{"a", "b", "\\/", "/", "\\u0041", "A", "\\ud83d\\ude00", "\\ud83d\\ude01", "😀", "\\n", "\\u000a", "\\u003c", "<", "http:\\/\\/", "http://", "\\\\", "\\\"", "é", "\\u00e9"})
+			for i := range texts {
+				texts[i] = "\"" + strings.Join(rapid.SliceOfN(piece, 0, 3).Draw(t, "pieces"), "") + "\""
+				if rapid.IntRange(0, 3).Draw(t, "asdata") == 0 {
+					texts[i] = "{\"data\":" + texts[i] + "}"
+				}
+			}
 		}
 		var vs []store.Value
 		var ts []string
